@@ -9,9 +9,10 @@ TARGETS = {
     "p2bin": ("in.p", True, False), "p2hex": ("in.p", True, False), "pbind": ("in.p", True, False),
     "plist": ("in.p", False, False), "alink": ("in.p", True, False),
     "dasl": ("in.bin", False, True),
-    # no in-process target for asl itself: its main() is not re-entrant (one-time initialisation behind
-    # `static Boolean First`, instruction tables freed by UnsetCPU), every artifact of such a target was a
-    # state-leak artefact that did not reproduce stand-alone.  asl is covered by the Hypothesis generators.
+    # asl's main() is not re-entrant (one-time initialisation behind `static Boolean First`, instruction tables
+    # freed by UnsetCPU): its target (fuzz/harness_asl.c) assembles every input in a forked child and shares the
+    # coverage counters with it, so no state can leak from one input to the next.
+    "asl": ("t.asm", False, True),
 }
 
 
@@ -60,8 +61,12 @@ def build_all(quiet=True):
                 defs.append("-DVF_OUTPUT")
             if before:
                 defs.append("-DVF_ARGS_BEFORE")
+            src = "harness.c"
+            if tool == "asl":
+                src = "harness_asl.c"
+                defs.append('-DVF_INCDIR="%s"' % os.path.join(build.REPO, "include"))
             subprocess.check_call(["clang", "-c", "-O1", "-g", "-fsanitize=address"] + defs +
-                                  [os.path.join(FUZZ, "harness.c"), "-o", hobj])
+                                  [os.path.join(FUZZ, src), "-o", hobj])
             link = link.replace(stub, hobj + " -fsanitize=fuzzer")
             link = re.sub(r"-o %s(\s|$)" % tool, "-o fuzz_%s " % tool, link)
             r = subprocess.run(link, shell=True, cwd=d, stdout=subprocess.PIPE, stderr=subprocess.STDOUT)
